@@ -76,11 +76,12 @@ func runTransp(ts *TranspScen, w *bufio.Writer) (runs int) {
 				b.CPU.Step()
 			}
 			b.CPU.Interrupt = PendDec(req)
-			if b.IO != nil {
-				b.IO.nin = 0
-			}
 			b.lastN, b.lastI = b.H.N, b.H.I
-			EmitInit(w, stateInit(b, req))
+			si := stateInit(b, req)
+			if b.IO != nil {
+				si.Nin = b.IO.nin // the device's read counter runs on, as in the undisturbed run
+			}
+			EmitInit(w, si)
 			ok := false
 			for i := 0; i < ts.Max+40; i++ {
 				pc, pd := b.CPU.PC, b.CPU.Interrupt
